@@ -12,6 +12,7 @@ import (
 	"os"
 	"strconv"
 	"sync"
+	"sync/atomic"
 	"time"
 
 	rtcm "github.com/goblimey/go-ntrip/rtcm/handler"
@@ -213,9 +214,23 @@ type slowWriter struct {
 	buf   []byte
 	delay time.Duration
 	calls int
+	// stall: the Write that completes the expected output (stallAt bytes in all) blocks for this
+	// long before it takes the data - a downstream reader that stops reading for a while just
+	// before the end
+	stall   time.Duration
+	stallAt int
+	stalled int32
 }
 
 func (w *slowWriter) Write(p []byte) (int, error) {
+	if w.stall > 0 {
+		w.mu.Lock()
+		last := len(w.buf)+len(p) >= w.stallAt
+		w.mu.Unlock()
+		if last && atomic.CompareAndSwapInt32(&w.stalled, 0, 1) {
+			time.Sleep(w.stall)
+		}
+	}
 	if w.delay > 0 {
 		time.Sleep(w.delay)
 	}
@@ -233,10 +248,14 @@ func (w *slowWriter) snapshot() []byte {
 }
 
 // chunked delivers data in chunks of the given sizes (cycled).
+// vHangs counts calls of the application entry point that did not return within the time limit.
+var vHangs int
+
 type chunked struct {
 	data   []byte
 	chunks []int
 	k      int
+	done   *int32 // set to 1 when end of file has been reported
 }
 
 // Read hands out the data in pieces of the listed sizes (cyclically).  A 0 in the list is not a
@@ -244,6 +263,9 @@ type chunked struct {
 // io.Reader contract allows, instead of on a call of their own.
 func (c *chunked) Read(p []byte) (int, error) {
 	if len(c.data) == 0 {
+		if c.done != nil {
+			atomic.StoreInt32(c.done, 1)
+		}
 		return 0, eofErr()
 	}
 	withEOF := false
@@ -266,6 +288,9 @@ func (c *chunked) Read(p []byte) (int, error) {
 	copy(p, c.data[:n])
 	c.data = c.data[n:]
 	if withEOF && len(c.data) == 0 {
+		if c.done != nil {
+			atomic.StoreInt32(c.done, 1)
+		}
 		return n, eofErr()
 	}
 	return n, nil
